@@ -81,4 +81,53 @@ MUTANTS = [
      "                expression = self.parse_mandatory_primitive(must_be_on_current_line=False)",
      "                expression = self.parse_mandatory_primitive(must_be_on_current_line=True)",
      'bounded[integer-matcher _Parser.parse] unclassified: '),
+    # ---- C01 / C03
+    ('c01-continue-after-hard-error', 'C01', 'exactly_lib/execution/impl/phase_step_execution.py',
+     "            if failure_info is not None:\n                return Failure(",
+     "            if failure_info is not None and failure_info.status is not ExecutionFailureStatus.HARD_ERROR:\n"
+     "                return Failure(",
+     'execute_phase_prim : loop#0 invariant[preserved]'),
+    ('c01-hard-error-exception-as-fail', 'C01', 'exactly_lib/execution/impl/single_instruction_executor.py',
+     "            ExecutionFailureStatus.HARD_ERROR,\n            element",
+     "            ExecutionFailureStatus.FAIL,\n            element",
+     'execute_element : ensures[failure has the kind of the failing apply]'),
+    ('c01-no-cleanup-after-setup-failure', 'C01', 'exactly_lib/execution/partial_execution/impl/executor.py',
+     "            except PhaseStepFailureException as ex:\n                self._cleanup_main(previous_phase)\n"
+     "                raise ex",
+     "            except PhaseStepFailureException as ex:\n                raise ex",
+     '_PartialExecutor.execute : ensures[cleanup: exactly once iff the sandbox exists'),
+    ('c01-before-assert-failure-tells-assert', 'C01', 'exactly_lib/execution/partial_execution/impl/executor.py',
+     "self._cleanup_main(PreviousPhase.BEFORE_ASSERT)", "self._cleanup_main(PreviousPhase.ASSERT)",
+     '_PartialExecutor.execute : ensures[cleanup: exactly once iff the sandbox exists'),
+    ('c01-assert-failure-masked-by-pass', 'C01', 'exactly_lib/execution/partial_execution/impl/executor.py',
+     "        if failure_from_previous_step is not None:\n"
+     "            return self._final_failure_result_from(failure_from_previous_step)",
+     "        if failure_from_previous_step is not None and False:\n"
+     "            return self._final_failure_result_from(failure_from_previous_step)",
+     '_PartialExecutor.execute : ensures[outcome: success iff no step failed'),
+    ('c01-cleanup-main-wrong-previous-phase', 'C01', 'exactly_lib/execution/impl/phase_step_executors.py',
+     "                             self._os_services,\n                             self._previous_phase))",
+     "                             self._os_services,\n                             PreviousPhase.ASSERT))",
+     "CleanupMainExecutor.apply : ensures[calls the step's method of the instruction"),
+    ('c01-skip-ignored', 'C01', 'exactly_lib/execution/full_execution/execution.py',
+     "    if configuration_builder.test_case_status is TestCaseStatus.SKIP:", "    if False:",
+     'full_execution.execution:execute : ensures[conf failure / SKIP end the execution'),
+    ('c03-cleanup-validated-after-sandbox', 'C03', 'exactly_lib/execution/partial_execution/impl/executor.py',
+     "            self._cleanup__validate_pre_sds()\n        except PhaseStepFailureException as ex:\n"
+     "            return self._final_failure_result_from(ex.failure)\n\n        self._setup_post_sds_environment()\n",
+     "        except PhaseStepFailureException as ex:\n"
+     "            return self._final_failure_result_from(ex.failure)\n\n        self._setup_post_sds_environment()\n"
+     "        try:\n            self._cleanup__validate_pre_sds()\n        except PhaseStepFailureException as ex:\n"
+     "            return self._final_failure_result_from(ex.failure)\n",
+     '_PartialExecutor.execute : ensures[invalid case (C03)'),
+    ('c03-execute-on-access-error', 'C03', 'exactly_lib/processing/processing_utils.py',
+     "            except AccessorError as ex:\n                return processing.Result(processing.Status.ACCESS_ERROR,",
+     "            except AccessorError as ex:\n                self._executor.apply(test_case.file_path, None)\n"
+     "                return processing.Result(processing.Status.ACCESS_ERROR,",
+     'ProcessorFromAccessorAndExecutor.apply : ensures[the test case is executed iff'),
+    ('c03-pre-sds-conjunction-runs-post-sds-part', 'C03',
+     'exactly_lib/type_val_deps/dep_variants/sdv/sdv_validation.py',
+     "        for validator in self.validators:\n            result = validator.validate_pre_sds_if_applicable(environment)",
+     "        for validator in self.validators:\n            result = validator.validate_post_sds_if_applicable(environment)",
+     'AndSdvValidator.validate_pre_sds_if_applicable : monitor['),
 ]
